@@ -215,6 +215,42 @@ fn run(op: &str, a: &[&str]) -> String {
                 _ => { let mut e = G2Uncompressed::empty(); e.as_mut().copy_from_slice(&bytes); match e.into_affine() { Ok(p) => format!("ok {}", g2a(&p)), Err(x) => format!("err {:?}", x) } }
             }
         }
+        // joint Miller loop with SHARED prepared G2 objects against the product of individual pairings:
+        // `ml_check <nq> b_0..b_{nq-1} <np> (a_i j_i)*np`  with Q_j = [b_j]g2 (0 = identity), P_i = [a_i]g1 (0 = identity), pair i = (P_i, Q_{j_i})
+        "ml_check" => {
+            use pairing_plus::bls12_381::Bls12;
+            use pairing_plus::Engine;
+            let nq = a[0].parse::<usize>().unwrap();
+            let mut qs = Vec::new();
+            for j in 0..nq {
+                let mut q = G2::one();
+                q.mul_assign(fr_repr(a[1 + j]));
+                qs.push(q.into_affine());
+            }
+            let np = a[1 + nq].parse::<usize>().unwrap();
+            let mut ps = Vec::new();
+            let mut js = Vec::new();
+            for i in 0..np {
+                let mut p = G1::one();
+                p.mul_assign(fr_repr(a[2 + nq + 2 * i]));
+                ps.push(p.into_affine());
+                js.push(a[3 + nq + 2 * i].parse::<usize>().unwrap());
+            }
+            let preps: Vec<_> = qs.iter().map(|q| q.prepare()).collect();
+            let pps: Vec<_> = ps.iter().map(|p| p.prepare()).collect();
+            let refs: Vec<_> = (0..np).map(|i| (&pps[i], &preps[js[i]])).collect();
+            let joint = Bls12::final_exponentiation(&Bls12::miller_loop(&refs)).unwrap();
+            // the same list again: prepared elements can be reused
+            let joint2 = Bls12::final_exponentiation(&Bls12::miller_loop(&refs)).unwrap();
+            let mut prod = Fq12::one();
+            for i in 0..np {
+                prod.mul_assign(&Bls12::pairing(ps[i], qs[js[i]]));
+            }
+            let helper = if np == 2 { Bls12::pairing_product(ps[0], qs[js[0]], ps[1], qs[js[1]]) == prod } else { true };
+            let qsel: Vec<_> = (0..np).map(|i| qs[js[i]]).collect();
+            let multi = Bls12::pairing_multi_product(&ps, &qsel) == prod;
+            format!("joint_equals_product={} reuse_equal={} pairing_product={} pairing_multi_product={} is_one={}", joint == prod, joint == joint2, helper, multi, prod == Fq12::one())
+        }
         "g1_mul" => { let mut p = G1::one(); p.mul_assign(fr_repr(a[0])); g1a(&p.into_affine()) }
         "g2_mul" => { let mut p = G2::one(); p.mul_assign(fr_repr(a[0])); g2a(&p.into_affine()) }
         // ---- full hash_to_curve / encode_to_curve (message and tag given as hex strings; "-" = empty)
